@@ -24,7 +24,7 @@ pub fn vpanic() -> !
 #[allow(non_camel_case_types)]
 #[derive(Clone, Copy, PartialEq, Eq)]
 pub enum Lit {
-    Empty, LParen, RParen, LBracket, RBracket, Semi,
+    Empty, LParen, RParen, LBracket, RBracket, Semi, Comma,
     W_primary, W_index, W_unique, W_auto,
     W_int, W_uint, W_short, W_ushort, W_byte, W_ubyte, W_float, W_double, W_char, W_string,
     W_lstring, W_bigint, W_enum, W_set, W_simple, W_object, W_table,
@@ -52,6 +52,10 @@ impl Tok {
     fn eq_lit(&self, l: Lit) -> (b: bool)
         ensures b == (self.lit() == l), (self.lit() == Lit::Empty) == self.empty(),
     { unimplemented!() }
+    /// comparison with a string literal the grammar units do not name: unknown result (so that an edit that
+    /// introduces one is judged by the contracts instead of being rejected by the front end)
+    #[verifier::external_body]
+    fn eq_other(&self) -> (b: bool) { unimplemented!() }
     /// `s != "<literal>"`
     #[verifier::external_body]
     fn ne_lit(&self, l: Lit) -> (b: bool)
